@@ -67,7 +67,7 @@ CHECKS = {
    design="1/C14", engine="E2 hist"),
  "C07": dict(
    level="exploration",
-   text="Every text up to the tier's length over a 24-rune alphabet (4 scripts, both digit kinds, neutrals, 3 bracket pairs, mark, CJK, ZWJ, LF/PS, RLE/RLI/PDI, emoji) x every sub-range x 6 directions (incl. vertical with/without fixed orientation), languages and 4 Fontmap implementations crossed one at a time, plus a longer bracket-alphabet pass; one long-lived Segmenter per shard and explicit reuse pairs against a fresh Segmenter; laws: exact partition, field identity, bidi parity against reference levels per paragraph, script uniformity and bracket/neutral context, orientation, face through the Fontmap (script hint told first), language/script compatibility.",
+   text="Every text up to the tier's length over a 24-rune alphabet (4 scripts, both digit kinds, neutrals, 3 bracket pairs, mark, CJK, ZWJ, LF/PS, RLE/RLI/PDI, emoji) x every sub-range x 6 directions (incl. vertical with/without fixed orientation), languages and 4 Fontmap implementations crossed one at a time, plus a longer bracket-alphabet pass and every Unicode bracket pair between letters of two scripts (the closing bracket takes the script of the opening one); one long-lived Segmenter per shard and explicit reuse pairs against a fresh Segmenter; laws: exact partition, field identity, bidi parity against reference levels per paragraph, script uniformity and bracket/neutral context, orientation, face through the Fontmap (script hint told first), language/script compatibility.",
    note="Reference embedding levels: x/text bidi core via go:linkname, with the paragraph-level convention of the library's own call. Class B runes may have either parity. Neutral-only runs: script must come from a neighbouring run or a still unmatched opening bracket.",
    technique="bounded exhaustive enumeration of inputs and configurations against laws and reference UBA levels (E1) + depth-2 reuse histories",
    design="1/C07", engine="E1 enum"),
